@@ -175,6 +175,11 @@ func c09(c *Ctx) {
 		if class == "tall" {
 			mode = []uint32{1025, 1026, 1024, 1025}[(i/tallEvery)%4]
 		}
+		if class == "multi" {
+			// field instances and documents holding the term lie on different sides of
+			// 1024 / 2048: only the cardinality-dependent modes tell them apart
+			mode = []uint32{1026, 1026, 1025}[(i/61)%3]
+		}
 		a := model.Gen(rng, class, model.GenOpts{Syn: rng.Intn(3) == 0, Vec: VecBuild && rng.Intn(2) == 0, IDPrefix: "a", VecSalt: 1 + i%997})
 		extra := ""
 		if class == "tall" {
